@@ -225,6 +225,87 @@ fn combination(g: &mut Xo, pop: &Pop, cases: usize, seed: u64, rep: &mut Report)
     }
 }
 
+/// The same contract on the other collection types the library accepts as populations:
+/// `VecDeque`, `LinkedList`, `BTreeSet` (iterable ones: Best, Worst, Lexicase) and arrays, boxed
+/// slices (slice-like ones: additionally Random, Tournament). Identity is decided against the
+/// collection's own iteration.
+fn other_collections(g: &mut Xo, rep: &mut Report) {
+    use std::collections::{BTreeSet, LinkedList, VecDeque};
+    fn observe<'p, P, S>(name: &str, coll: &str, sel: &S, pop: &'p P, members: &[*const IndS], n: usize, expect_err: Option<&str>, seed: u64, rep: &mut Report)
+    where
+        P: ec_core::population::Population<Individual = IndS>,
+        S: Selector<P>,
+        S::Error: std::fmt::Debug,
+    {
+        let r = catch(|| sel.select(pop, &mut TraceRng::stream(seed)).map(std::ptr::from_ref).map_err(|e| format!("{e:?}")));
+        rep.eval();
+        rep.count(&format!("{coll}:{name}"));
+        rep.distinct(mix(fnv_str(coll), mix(fnv_str(name), n as u64)));
+        let verdict = match (&r, expect_err) {
+            (Err(p), _) => Err(format!("panic: {p}")),
+            (Ok(Ok(ptr)), None) => if members.contains(ptr) { Ok(()) } else { Err("returned a reference that is not an element of the population".to_string()) },
+            (Ok(Ok(_)), Some(e)) => Err(format!("must fail with {e} but returned a member")),
+            (Ok(Err(t)), Some(e)) => if t.contains(e) { Ok(()) } else { Err(format!("documented error {e}, got {t}")) },
+            (Ok(Err(t)), None) => Err(format!("no error is documented for this configuration, got {t}")),
+        };
+        if let Err(why) = verdict {
+            rep.violation(format!("C06/{name}/on-{coll}"), || json!({"selector": name, "collection": coll, "population_size": n, "why": why}));
+        }
+    }
+    let n = g.usize_below(7);
+    let cases = 1 + g.usize_below(3);
+    let base = gen_population(g, n, cases);
+    let seed = g.next();
+    let empty = if n == 0 { Some("EmptyPopulation") } else { None };
+    let k = 1 + g.usize_below(n + 2);
+    let tk = if k > n { Some("TournamentSizeError") } else { None };
+    let tour = Tournament::new(std::num::NonZeroUsize::new(k).unwrap());
+    // iterable collections
+    let dq: VecDeque<IndS> = base.iter().cloned().collect();
+    let m: Vec<*const IndS> = dq.iter().map(std::ptr::from_ref).collect();
+    observe("Best", "VecDeque", &Best, &dq, &m, n, empty, seed, rep);
+    observe("Worst", "VecDeque", &Worst, &dq, &m, n, empty, seed, rep);
+    observe("Lexicase", "VecDeque", &Lexicase::new(cases), &dq, &m, n, empty, seed, rep);
+    let ll: LinkedList<IndS> = base.iter().cloned().collect();
+    let m: Vec<*const IndS> = ll.iter().map(std::ptr::from_ref).collect();
+    observe("Best", "LinkedList", &Best, &ll, &m, n, empty, seed, rep);
+    observe("Worst", "LinkedList", &Worst, &ll, &m, n, empty, seed, rep);
+    observe("Lexicase", "LinkedList", &Lexicase::new(cases), &ll, &m, n, empty, seed, rep);
+    let bs: BTreeSet<IndS> = base.iter().cloned().collect();
+    let m: Vec<*const IndS> = bs.iter().map(std::ptr::from_ref).collect();
+    let bs_empty = if bs.is_empty() { Some("EmptyPopulation") } else { None };
+    observe("Best", "BTreeSet", &Best, &bs, &m, bs.len(), bs_empty, seed, rep);
+    observe("Worst", "BTreeSet", &Worst, &bs, &m, bs.len(), bs_empty, seed, rep);
+    observe("Lexicase", "BTreeSet", &Lexicase::new(cases), &bs, &m, bs.len(), bs_empty, seed, rep);
+    // slice-like collections
+    let bx: Box<[IndS]> = base.clone().into_boxed_slice();
+    let m: Vec<*const IndS> = bx.iter().map(std::ptr::from_ref).collect();
+    observe("Best", "Box<[T]>", &Best, &bx, &m, n, empty, seed, rep);
+    observe("Random", "Box<[T]>", &Random, &bx, &m, n, empty, seed, rep);
+    observe("Tournament", "Box<[T]>", &tour, &bx, &m, n, tk, seed, rep);
+    observe("Lexicase", "Box<[T]>", &Lexicase::new(cases), &bx, &m, n, empty, seed, rep);
+    macro_rules! array {
+        ($len:expr) => {
+            if n == $len {
+                let arr: [IndS; $len] = std::array::from_fn(|i| base[i].clone());
+                let m: Vec<*const IndS> = arr.iter().map(std::ptr::from_ref).collect();
+                observe("Best", "[T; N]", &Best, &arr, &m, n, empty, seed, rep);
+                observe("Worst", "[T; N]", &Worst, &arr, &m, n, empty, seed, rep);
+                observe("Random", "[T; N]", &Random, &arr, &m, n, empty, seed, rep);
+                observe("Tournament", "[T; N]", &tour, &arr, &m, n, tk, seed, rep);
+                observe("Lexicase", "[T; N]", &Lexicase::new(cases), &arr, &m, n, empty, seed, rep);
+            }
+        };
+    }
+    array!(0);
+    array!(1);
+    array!(2);
+    array!(3);
+    array!(4);
+    array!(5);
+    array!(6);
+}
+
 fn large_population(g: &mut Xo, rep: &mut Report) {
     let n = match g.below(6) {
         0 => 10 + g.usize_below(30),
@@ -307,6 +388,9 @@ pub fn run(args: &Args) -> i32 {
             if r % 40 == 0 {
                 large_population(&mut g, &mut rep);
             }
+            if r % 4 == 0 {
+                other_collections(&mut g, &mut rep);
+            }
         }
         rep
     });
@@ -314,7 +398,7 @@ pub fn run(args: &Args) -> i32 {
     rep.finish(
         args,
         "exploration",
-        "large populations (10..4099 members, tournament sizes around 8/16/32/64, sqrt(n), n/2, n-1, n, n+1, up to 34 cases) every 40th round; populations of size 0..9 (empty, singleton, all-equal, duplicate-laden, random; some individuals with fewer results) x Best, Worst, Random, Tournament(k=1..n+2), Lexicase(cases 0..m+2, both polarities) through five access paths (direct, &S, Select operator, &dyn, Box<dyn>) x random weighted combinations in 13 nestings with weights incl. 0; distinct_nontrivial counts distinct (selector, access path / members+weights, population size, outcome kind)",
+        "every fourth round the same contract on VecDeque / LinkedList / BTreeSet / Box<[T]> / [T; N] populations; large populations (10..4099 members, tournament sizes around 8/16/32/64, sqrt(n), n/2, n-1, n, n+1, up to 34 cases) every 40th round; populations of size 0..9 (empty, singleton, all-equal, duplicate-laden, random; some individuals with fewer results) x Best, Worst, Random, Tournament(k=1..n+2), Lexicase(cases 0..m+2, both polarities) through five access paths (direct, &S, Select operator, &dyn, Box<dyn>) x random weighted combinations in 13 nestings with weights incl. 0; distinct_nontrivial counts distinct (selector, access path / members+weights, population size, outcome kind)",
         false,
         &[
             "identity is decided by address (ptr::eq) against the population's own elements",
